@@ -247,7 +247,7 @@ def gen_suite(rng, idx):
             pr2["W"] = pr2["W"] + 1
         if (mod, pr2) not in pool:
             pool.append((mod, pr2))
-    ntests = rng.choice([3, 4, 4, 5, 6])
+    ntests = rng.choice([3, 3, 4, 4, 5])
     tests = []
     ttexts = []
     for ti in range(ntests):
@@ -318,7 +318,7 @@ def gen_suite(rng, idx):
         "failing_tests": sum(1 for tt in tests if tt["kind"] != "pass"),
         "gated_clock": ("LGate" in " ".join(m for tt in tests for m, _ in tt["duts"])) or any("LGate" in wmeta[w]["kids"] for w in wmeta),
     }
-    backend = rng.choice(["cranelift"] * 5 + ["interpret"] * 3 + ["cc"] * 2)
+    backend = rng.choice(["cranelift"] * 6 + ["interpret"] * 3 + ["cc"] * 1)
     opts = {
         "backend": backend,
         "four_state": rng.random() < 0.25,
